@@ -198,6 +198,8 @@ func (cf *CloudflarePublisher) PublishECH(ctx context.Context, records []Target,
 			results = append(results, result)
 			continue
 		}
+		// A later target naming the same record must see what was just published.
+		data[zoneName{r.Zone, r.Name}] = v
 		result.Code = StatusUpdated
 		results = append(results, result)
 	}
